@@ -99,6 +99,7 @@ struct lifetime_monitor : public expectation
       send_report<specialized>(severity::nonfatal, loc, os.str());
       object_monitor = nullptr; // prevent its death poking this cadaver
     }
+    sequences->retire();
   }
 
   lifetime_monitor& operator=(lifetime_monitor const&) = delete;
